@@ -34,7 +34,8 @@ def main():
             engine="pv",
             level_claimed=dict(category=mod.LEVEL, text=mod.LEVEL_TEXT, design_ref=f"DESIGN.md section 4, {pid}"),
             level_note=mod.LEVEL_NOTE,
-            technique=mod.TECHNIQUE,
+            technique=mod.TECHNIQUE + ("; plus the same boundary monitors on a system-level workload of 2-4 complete SD stacks "
+                                       "(pv/mesh.py)" if getattr(mod, "MESH", None) else ""),
         ))
     man = dict(
         version=1,
